@@ -101,12 +101,12 @@ def time_from_serialnumber_with_microseconds(serialnumber):
 
 
 def time_from_serialnumber(serialnumber):
-    at_hours = (serialnumber + MICROSECOND) * 24
-    hours = math.floor(at_hours)
-    at_mins = (at_hours - hours) * 60
-    mins = math.floor(at_mins)
-    secs = (at_mins - mins) * 60
-    return hours % 24, mins, int(round(secs - 1.1E-6, 0))
+    # round to the nearest second (half a second rounds down) before splitting,
+    # so that a rounded up 59.x seconds carries into the minute and the hour
+    secs = int(round((serialnumber % 1) * 86400 - 1E-7)) % 86400
+    mins, secs = divmod(secs, 60)
+    hours, mins = divmod(mins, 60)
+    return hours, mins, secs
 
 
 def is_leap_year(year):
